@@ -153,6 +153,18 @@ def nested(x: FLOAT["N"]) -> FLOAT["N"]:
         return t, a
     total, same = op.Scan(op.Constant(value_float=0.0), x, body=body, num_scan_inputs=1)
     return same
+
+from onnxscript import graph, INT64, BOOL
+
+@script(default_opset=op)
+def outer_value(x: FLOAT[2], n: INT64) -> FLOAT[2]:
+    t = x + 1.0
+    @graph()
+    def body(i: INT64, cond: BOOL, a: FLOAT[2]) -> (BOOL, FLOAT[2]):
+        return cond, t
+    c = op.Cast(op.Constant(value_int=1), to=9)
+    r = op.Loop(n, c, x, body=body)
+    return r
 """
 d = tempfile.mkdtemp(); path = os.path.join(d, "ra_case.py"); open(path, "w").write(src)
 spec = importlib.util.spec_from_file_location("ra_case", path); mod = importlib.util.module_from_spec(spec); sys.modules["ra_case"] = mod; spec.loader.exec_module(mod)
@@ -163,13 +175,18 @@ def graphs(g):
         for a in n.attribute:
             if a.HasField("g"):
                 yield from graphs(a.g)
-for name in ("rebound", "nested"):
+for name in ("rebound", "nested", "outer_value"):
     m = getattr(mod, name).to_model_proto()
     for g in graphs(m.graph):
         ins = {i.name for i in g.input}
         direct = [o.name for o in g.output if o.name in ins]
         if direct:
             print(f"{name}: graph {g.name!r} returns its input(s) {direct} directly as output(s)")
+            bad += 1
+        produced = {o for n in g.node for o in n.output} | {i.name for i in g.initializer}
+        foreign = [o.name for o in g.output if o.name not in produced and o.name not in ins]
+        if foreign:
+            print(f"{name}: graph {g.name!r} has output(s) {foreign} that no node of that graph produces (a value of the enclosing function)")
             bad += 1
 sys.exit(1 if bad else 0)
 '''
